@@ -16,6 +16,7 @@ func init() { registry["C05"] = runC05 }
 
 func runC05(c *Ctx) {
 	rep := c.Rep
+	defer runFirstOps(c) // fresh child processes whose first gmsm call is one operation of this property
 	rep.FineDistinct()
 	rep.Meta("cases: (key, block) pairs — random, single-bit, all-zero/all-one — through sm4.NewCipher Encrypt/Decrypt vs the reference SM4 (computed S-box); generation continues until every S-box input value was seen in every byte lane of the data path and of the key schedule (instrumented reference reports lanes); histories = random Encrypt/Decrypt sequences on one cipher object with dst==src and disjoint canary buffers, each step compared with the stateless reference; key-buffer histories = ciphers built one after another from one key buffer edited in place or refilled in between (and other keys interleaved), each object checked against the key bytes it was built from; key lengths 0..64. Distinct non-trivial = distinct (class, key-digest/block-digest) for block cases, distinct history shapes for histories.",
 		3000, []string{"ref SM4 (S-box computed from its algebraic definition; GM/T 0002 vectors at start of run)"},
@@ -303,6 +304,40 @@ func runC05(c *Ctx) {
 			rep.Violation("C05/NewCipher/accepts-wrong-key-length", fmt.Sprintf("key length %d accepted (%T)", n, blk), map[string]interface{}{"keylen": n})
 		}
 		rep.Eval(fmt.Sprintf("keylen/%d", n))
+	}
+	// wrong-length keys right after a valid key they are related to (an extension of it, a prefix of it, the same bytes
+	// once zero-padded): length validation must not depend on what the previous call was given
+	{
+		rk := c.Rng("keylen-after-valid")
+		for trial := 0; trial < c.Q(6, 200); trial++ {
+			K := rk.Bytes(16)
+			if trial%3 == 0 {
+				K = make([]byte, 16) // the all-zero key: every shorter all-zero key equals it once zero-padded
+			}
+			for n := 0; n <= 64; n++ {
+				if n == 16 {
+					continue
+				}
+				if _, err := sm4.NewCipher(K); err != nil {
+					rep.Violation("C05/NewCipher/rejects-16-byte-key", err.Error(), nil)
+					break
+				}
+				var bad []byte
+				if n < 16 {
+					bad = append([]byte{}, K[:n]...)
+				} else {
+					bad = append(append([]byte{}, K...), rk.Bytes(n-16)...)
+				}
+				var err error
+				var blk interface{}
+				if pi := mon.Guard(func() { blk, err = sm4.NewCipher(bad) }); pi != nil {
+					rep.Violation("C05/NewCipher/panic/"+pi.Func, fmt.Sprintf("key length %d after a valid key: %s", n, pi.Value), nil)
+				} else if err == nil {
+					rep.Violation("C05/NewCipher/accepts-wrong-key-length/after-a-related-valid-key", fmt.Sprintf("key of %d bytes (prefix/extension of the key of the previous call) accepted (%T)", n, blk), map[string]interface{}{"previous_key": mon.Hex(K), "key": mon.Hex(bad)})
+				}
+			}
+			rep.Eval("keylen-after-related-valid-key")
+		}
 	}
 	rep.Exhaustive("key lengths 0..64; all 384 single-bit key/block patterns")
 }
